@@ -54,112 +54,127 @@ def bounded(pb, interp, rng, tier):
             return
         if _meta(res) != _meta(first):
             fail(f"{what}.metadata", inst, f"{_meta(res)} vs {_meta(first)}")
+        if hasattr(ref, "unit") and getattr(res.data, "unit", None) != ref.unit:
+            fail(f"{what}.unit-lost", inst, f"{getattr(res.data, 'unit', None)} vs {ref.unit}")
         a, b = arr(res.data), arr(ref)
         if a.shape != b.shape or a.dtype != b.dtype or not np.array_equal(a, b, equal_nan=True):
             fail(f"{what}.values", inst, f"shape/dtype/values differ: {a.dtype}{a.shape} vs {b.dtype}{b.shape}")
         if isinstance(first.data, da.Array) and not isinstance(res.data, da.Array):
             fail(f"{what}.stays-dask", inst, type(res.data).__name__)
 
+    def _sweep_one(s, cname, be):
+        nonlocal ev
+        for uf in UNARY + BINARY + TWO_OUT:
+            if np.iscomplexobj(s.data) and uf in (np.maximum, np.minimum, np.less, np.greater_equal, np.modf, np.frexp, np.divmod, np.sign):
+                continue
+            others = [None] if uf.nin == 1 else ["sig", "arr", "scalar", "quantity-less-array-first", "scalar-first", "quantity", "quantity-first"]
+            for ot in others:
+                inst = f"{uf.__name__},{cname},{be},{ot}"
+                if ot is None:
+                    args, rargs, first = (s,), (s.data,), s
+                elif ot == "sig":
+                    args, rargs, first = (s, s), (s.data, s.data), s
+                elif ot == "arr":
+                    o = arr(s.data) * 2
+                    args, rargs, first = (s, o), (s.data, o), s
+                elif ot == "scalar":
+                    args, rargs, first = (s, 2), (s.data, 2), s
+                elif ot == "quantity-less-array-first":
+                    o = arr(s.data) * 3
+                    args, rargs, first = (o, s), (o, s.data), s
+                elif ot in ("quantity", "quantity-first"):
+                    if uf not in (np.multiply, np.divide) or isinstance(s.data, da.Array) or type(s)._req_dtype:
+                        continue
+                    q = 2.0 * u.m
+                    args, rargs, first = ((s, q), (s.data, q), s) if ot == "quantity" else ((q, s), (q, s.data), s)
+                else:
+                    args, rargs, first = (2, s), (2, s.data), s
+                try:
+                    ref = uf(*rargs)
+                except Exception:
+                    continue
+                refs = ref if isinstance(ref, tuple) else (ref,)
+                # result dtype must be admissible for the class, otherwise construction legitimately raises
+                req = type(s)._req_dtype
+                admissible = all((not req) or (r.dtype in req) or np.can_cast(r.dtype, req[0], "safe") for r in refs)
+                try:
+                    res = uf(*args)
+                except ValueError as e:
+                    if admissible:
+                        fail("call.raises", inst, repr(e))
+                    ev += 1
+                    continue
+                except Exception as e:
+                    fail("call.raises", inst, repr(e))
+                    continue
+                if not admissible:
+                    fail("call.inadmissible-dtype-accepted", inst, str([r.dtype for r in refs]))
+                    continue
+                ress = res if isinstance(res, tuple) else (res,)
+                if len(ress) != len(refs):
+                    fail("call.nout", inst, f"{len(ress)} vs {len(refs)}")
+                    continue
+                for k, (r, rf) in enumerate(zip(ress, refs)):
+                    exp = rf.astype(req[0]) if req and rf.dtype not in req else rf
+                    check_result(r, exp, first, inst, f"out{k}")
+                if len(samples) < 2:
+                    samples.append({"ufunc": uf.__name__, "class": cname, "backend": be, "operands": ot})
+        # out= and in-place forms (NumPy-backed only: dask arrays do not support out= targets that are signals' buffers the same way)
+        if be == "numpy" and not isinstance(s.data, da.Array):
+            tgt = type(s).like(s, arr(s.data).copy(), meta={"target": True}, start_time=None)
+            before = _meta(tgt)
+            ref = np.add(s.data, s.data)
+            r = np.add(s, s, out=tgt)
+            ev += 1
+            distinct.add(f"out=,{cname}")
+            if r is not tgt:
+                fail("out.identity", f"out=,{cname}", "returned object is not the given out signal")
+            if _meta(tgt) != before:
+                fail("out.metadata", f"out=,{cname}", "out signal metadata changed")
+            if not np.array_equal(tgt.data, ref):
+                fail("out.values", f"out=,{cname}", "out buffer does not hold the result")
+            t2 = type(s).like(s, arr(s.data).copy())
+            buf = t2.data
+            t3 = t2
+            t3 *= 2
+            t3 += s
+            ev += 1
+            distinct.add(f"inplace,{cname}")
+            if t3 is not t2 or t3.data is not buf or not np.allclose(buf, arr(s.data) * 3):
+                fail("inplace.chain", f"inplace,{cname}", "in-place chain did not write into / return the target")
+        # refusals
+        for what, fn in [("reduce", lambda: np.add.reduce(s)), ("accumulate", lambda: np.add.accumulate(s)),
+                         ("outer", lambda: np.add.outer(s, s)), ("matmul", lambda: np.matmul(s, s)),
+                         ("sum", lambda: np.sum(s))]:
+            ev += 1
+            distinct.add(f"refuse.{what},{cname},{be}")
+            try:
+                r = fn()
+                fail(f"refuse.{what}", f"{cname},{be}", f"returned {type(r).__name__} instead of raising TypeError")
+            except TypeError:
+                pass
+            except Exception as e:
+                fail(f"refuse.{what}", f"{cname},{be}", f"raised {type(e).__name__} instead of TypeError")
+        # np.asarray / np.array protocol
+        for what, fn, exp in [("asarray", lambda: np.asarray(s), arr(s.data)),
+                              ("asarray-dtype", lambda: np.asarray(s, dtype=np.complex128), arr(s.data).astype(np.complex128)),
+                              ("array-copy", lambda: np.array(s, copy=True), arr(s.data))]:
+            ev += 1
+            distinct.add(f"{what},{cname},{be}")
+            try:
+                r = fn()
+                if not isinstance(r, np.ndarray) or r.dtype != exp.dtype or not np.array_equal(r, exp):
+                    fail(f"protocol.{what}", f"{cname},{be}", "wrong data")
+            except Exception as e:
+                fail(f"protocol.{what}", f"{cname},{be}", repr(e))
+
     for be in ("numpy", "dask"):
         sigs = _signals(pb, rng, be)
         for s in sigs:
             cname = type(s).__name__
-            for uf in UNARY + BINARY + TWO_OUT:
-                if np.iscomplexobj(s.data) and uf in (np.maximum, np.minimum, np.less, np.greater_equal, np.modf, np.frexp, np.divmod, np.sign):
-                    continue
-                others = [None] if uf.nin == 1 else ["sig", "arr", "scalar", "quantity-less-array-first", "scalar-first"]
-                for ot in others:
-                    inst = f"{uf.__name__},{cname},{be},{ot}"
-                    if ot is None:
-                        args, rargs, first = (s,), (s.data,), s
-                    elif ot == "sig":
-                        args, rargs, first = (s, s), (s.data, s.data), s
-                    elif ot == "arr":
-                        o = arr(s.data) * 2
-                        args, rargs, first = (s, o), (s.data, o), s
-                    elif ot == "scalar":
-                        args, rargs, first = (s, 2), (s.data, 2), s
-                    elif ot == "quantity-less-array-first":
-                        o = arr(s.data) * 3
-                        args, rargs, first = (o, s), (o, s.data), s
-                    else:
-                        args, rargs, first = (2, s), (2, s.data), s
-                    try:
-                        ref = uf(*rargs)
-                    except Exception:
-                        continue
-                    refs = ref if isinstance(ref, tuple) else (ref,)
-                    # result dtype must be admissible for the class, otherwise construction legitimately raises
-                    req = type(s)._req_dtype
-                    admissible = all((not req) or (r.dtype in req) or np.can_cast(r.dtype, req[0], "safe") for r in refs)
-                    try:
-                        res = uf(*args)
-                    except ValueError as e:
-                        if admissible:
-                            fail("call.raises", inst, repr(e))
-                        ev += 1
-                        continue
-                    except Exception as e:
-                        fail("call.raises", inst, repr(e))
-                        continue
-                    if not admissible:
-                        fail("call.inadmissible-dtype-accepted", inst, str([r.dtype for r in refs]))
-                        continue
-                    ress = res if isinstance(res, tuple) else (res,)
-                    if len(ress) != len(refs):
-                        fail("call.nout", inst, f"{len(ress)} vs {len(refs)}")
-                        continue
-                    for k, (r, rf) in enumerate(zip(ress, refs)):
-                        exp = rf.astype(req[0]) if req and rf.dtype not in req else rf
-                        check_result(r, exp, first, inst, f"out{k}")
-                    if len(samples) < 2:
-                        samples.append({"ufunc": uf.__name__, "class": cname, "backend": be, "operands": ot})
-            # out= and in-place forms (NumPy-backed only: dask arrays do not support out= targets that are signals' buffers the same way)
-            if be == "numpy" and not isinstance(s.data, da.Array):
-                tgt = type(s).like(s, arr(s.data).copy(), meta={"target": True}, start_time=None)
-                before = _meta(tgt)
-                ref = np.add(s.data, s.data)
-                r = np.add(s, s, out=tgt)
-                ev += 1
-                distinct.add(f"out=,{cname}")
-                if r is not tgt:
-                    fail("out.identity", f"out=,{cname}", "returned object is not the given out signal")
-                if _meta(tgt) != before:
-                    fail("out.metadata", f"out=,{cname}", "out signal metadata changed")
-                if not np.array_equal(tgt.data, ref):
-                    fail("out.values", f"out=,{cname}", "out buffer does not hold the result")
-                t2 = type(s).like(s, arr(s.data).copy())
-                buf = t2.data
-                t3 = t2
-                t3 *= 2
-                t3 += s
-                ev += 1
-                distinct.add(f"inplace,{cname}")
-                if t3 is not t2 or t3.data is not buf or not np.allclose(buf, arr(s.data) * 3):
-                    fail("inplace.chain", f"inplace,{cname}", "in-place chain did not write into / return the target")
-            # refusals
-            for what, fn in [("reduce", lambda: np.add.reduce(s)), ("accumulate", lambda: np.add.accumulate(s)),
-                             ("outer", lambda: np.add.outer(s, s)), ("matmul", lambda: np.matmul(s, s)),
-                             ("sum", lambda: np.sum(s))]:
-                ev += 1
-                distinct.add(f"refuse.{what},{cname},{be}")
-                try:
-                    r = fn()
-                    fail(f"refuse.{what}", f"{cname},{be}", f"returned {type(r).__name__} instead of raising TypeError")
-                except TypeError:
-                    pass
-                except Exception as e:
-                    fail(f"refuse.{what}", f"{cname},{be}", f"raised {type(e).__name__} instead of TypeError")
-            # np.asarray / np.array protocol
-            for what, fn, exp in [("asarray", lambda: np.asarray(s), arr(s.data)),
-                                  ("asarray-dtype", lambda: np.asarray(s, dtype=np.complex128), arr(s.data).astype(np.complex128)),
-                                  ("array-copy", lambda: np.array(s, copy=True), arr(s.data))]:
-                ev += 1
-                distinct.add(f"{what},{cname},{be}")
-                try:
-                    r = fn()
-                    if not isinstance(r, np.ndarray) or r.dtype != exp.dtype or not np.array_equal(r, exp):
-                        fail(f"protocol.{what}", f"{cname},{be}", "wrong data")
-                except Exception as e:
-                    fail(f"protocol.{what}", f"{cname},{be}", repr(e))
+            try:
+                _sweep_one(s, cname, be)
+            except Exception as e:      # anything the wrapper lets escape is a failure of that case, not of the checker
+                fail("sweep.raises", f"{cname},{be}", f"{type(e).__name__}: {str(e)[:120]}")
+        continue
     return {"evaluations": ev, "distinct_nontrivial": len(distinct), "failures": fails, "samples": samples}
